@@ -114,6 +114,7 @@ class Contract(object):
         self.yield_havoc = list(kw.pop('yield_havoc', []))
         self.covers = kw.pop('covers', True)
         self.ghost_exit = list(kw.pop('ghost_exit', []))
+        self.escape_props = kw.pop('escape_props', None)
         self.lets = list(kw.pop('lets', []))       # [(name, expr)]: abbreviations available to ensures / raises / defines
         self.at_return = {k: _clauses(v, 'ret%s-' % k) for k, v in kw.pop('at_return', {}).items()}
         if kw:
